@@ -234,7 +234,7 @@ impl Property for C07 {
 
     fn cases(&self, tier: Tier) -> u32 {
         match tier {
-            Tier::Quick => 6_000,
+            Tier::Quick => 30_000,
             Tier::Thorough => 80_000,
         }
     }
